@@ -99,6 +99,23 @@ theorem tree_no_spurious_allNegInf {α : Type} {o : Ops α} (h : OrdLawsOn o) (h
     obtain ⟨id, v, hS, _⟩ := C18.greedy_admissible_on h hb true { P with greedyErr := true } r logits ht hn hsome
     rw [hS]; intro e; cases e
 
+/-- **the sampler a request gets has its filters in range**: for every call site of the tree and every
+    request whose `top_p` / `min_p` are not NaN (JSON cannot express NaN), the stored `top_p` and
+    `min_p` lie in `[0, 1]` and the stored temperature is not negative — `NewSampler`'s clamping
+    (`C18.newParams_in_range`) composed with the call-site wiring -/
+theorem tree_request_params_in_range {α : Type} {o : Ops α} (h : OrdLawsOn o) (hc : C18.ClampLawsOn o)
+    (opts : Options α) (hp : o.isNaN opts.TopP = false) (hmp : o.isNaN opts.MinP = false) :
+    ∀ s ∈ Generated.C18.callSites, ∃ P rng, samplerOfArgs o opts s.2.1 = some (P, rng) ∧
+      o.lt P.temp o.zero = false ∧ P.topK = opts.TopK ∧
+      o.lt P.topP o.zero = false ∧ o.lt o.one P.topP = false ∧
+      o.lt P.minP o.zero = false ∧ o.lt o.one P.minP = false ∧
+      (rng = none ↔ opts.Seed = -1) := by
+  intro s hs
+  have hr := C18.newParams_in_range h hc opts.Temperature opts.TopK opts.TopP opts.MinP hp hmp
+  simp only at hr
+  exact ⟨_, _, tree_request_sampler o opts s hs, hr.1, hr.2.1, hr.2.2.1, hr.2.2.2.1, hr.2.2.2.2.2.1,
+    hr.2.2.2.2.2.2.1, C18.newRng_none_iff opts.Seed⟩
+
 /-- non-vacuity / sensitivity: a call site that swaps top-p and min-p builds another sampler -/
 example :
     (samplerOfArgs C18.zOps (⟨1, 40, 0, 1, 7⟩ : Options Int) ["Temperature", "TopK", "MinP", "TopP", "Seed"]).map
